@@ -6,12 +6,17 @@
       inside the invoke's `arg_stack_size`, aligned to their size, pairwise disjoint, and the frame's `call_stack_size` /
       `call_stack_alignment` recorded by `on_before_invoke` cover them – so they cannot overlap the caller's locals, which the frame
       places above the call area (C07);
-    * `imm_stack_arg_value` / `imm_stack_arg_machine` (every 64-bit immediate, every type): the stores `move_imm_to_stack_arg` emits
+    * `imm_stack_arg_machine` (every 64-bit immediate, every type): the stores `move_imm_to_stack_arg` emits
       leave exactly the immediate's low `size_of(type)` bytes in the slot – in particular the sign-extending `mov qword [..], imm32`
       shortcut is only taken when it reproduces the value;
-    * `imm_reg_arg_value`: likewise for `move_imm_to_reg_arg`;
-    * `reg_stack_arg_value`: `move_reg_to_stack_arg` stores the register extended as the parameter type requires, every integer type
-      pair, every register value.
+    * `imm_reg_arg_machine`: likewise for `move_imm_to_reg_arg`;
+    * `reg_stack_arg_machine`: `move_reg_to_stack_arg` stores the register extended as the parameter type requires, every integer
+      type pair, every register value;
+    * `vec_to_ptr_machine`: the two instructions of `move_vec_to_ptr` leave the pointer and the vector in the temporary;
+    * `reg_arg_not_extended_witness`: the open finding C06-K9 (register-position arguments are NOT extended).
+  Not proved: a single theorem for whole argument lists on the machine (the per-path theorems above + `temps_ok` are its pieces; what
+  is missing is the frame rule that distinct stack arguments do not overlap, which is `detail_matches_abi_*` of Props/C06.lean, and
+  the register allocator, C05); the post-RA instruction list of every generated call is judged by the same machine (monitor).
 -/
 import AsmjitVerif.Model.InvokeLower
 import AsmjitVerif.Spec.InvokeMachine
@@ -474,16 +479,16 @@ theorem reg_stack_small_ext (is64 avx : Bool) : ∀ dt ∈ [36, 37, 38, 39], ∀
     first
     | (obtain ⟨m', h1, h2⟩ := run_extD m off .movsx (Or.inl rfl) 2 (Or.inl rfl) rid x hg
        refine ⟨m', _, _, h1, h2, by decide, ?_⟩
-       simp [tySize, lowBytes, widen, extOf, rtBits, zext32, sext8, sext16, zext8, zext16]; bv_decide)
+       simp [tySize, lowBytes, widen, isInt, isBetween, extOf, rtBits, zext32, sext8, sext16, zext8, zext16]; bv_decide)
     | (obtain ⟨m', h1, h2⟩ := run_extD m off .movzx (Or.inr rfl) 2 (Or.inl rfl) rid x hg
        refine ⟨m', _, _, h1, h2, by decide, ?_⟩
-       simp [tySize, lowBytes, widen, extOf, rtBits, zext32, sext8, sext16, zext8, zext16]; bv_decide)
+       simp [tySize, lowBytes, widen, isInt, isBetween, extOf, rtBits, zext32, sext8, sext16, zext8, zext16]; bv_decide)
     | (obtain ⟨m', h1, h2⟩ := run_extD m off .movsx (Or.inl rfl) 4 (Or.inr rfl) rid x hg
        refine ⟨m', _, _, h1, h2, by decide, ?_⟩
-       simp [tySize, lowBytes, widen, extOf, rtBits, zext32, sext8, sext16, zext8, zext16]; bv_decide)
+       simp [tySize, lowBytes, widen, isInt, isBetween, extOf, rtBits, zext32, sext8, sext16, zext8, zext16]; bv_decide)
     | (obtain ⟨m', h1, h2⟩ := run_extD m off .movzx (Or.inr rfl) 4 (Or.inr rfl) rid x hg
        refine ⟨m', _, _, h1, h2, by decide, ?_⟩
-       simp [tySize, lowBytes, widen, extOf, rtBits, zext32, sext8, sext16, zext8, zext16]; bv_decide)
+       simp [tySize, lowBytes, widen, isInt, isBetween, extOf, rtBits, zext32, sext8, sext16, zext8, zext16]; bv_decide)
 
 /-- parameters of at most 32 bits from registers that are at least as wide (or 8-bit parameters from anything): one dword store -/
 theorem reg_stack_small_mov (is64 avx : Bool) :
@@ -497,7 +502,7 @@ theorem reg_stack_small_mov (is64 avx : Bool) :
     all_goals
       (obtain ⟨m', h1, h2⟩ := run_movD m off rid x hg
        refine ⟨m', _, _, h1, h2, by decide, ?_⟩
-       simp [tySize, lowBytes, widen, zext32, zext8, zext16] <;> bv_decide)
+       simp [tySize, lowBytes, widen, isInt, isBetween, zext32, zext8, zext16] <;> bv_decide)
   · intro dt hdt st hst off rid l h m x hg
     simp only [List.mem_cons, List.mem_nil_iff, or_false] at hdt hst
     rcases hdt with rfl | rfl | rfl | rfl <;> rcases hst with rfl | rfl | rfl | rfl <;>
@@ -505,7 +510,7 @@ theorem reg_stack_small_mov (is64 avx : Bool) :
     all_goals
       (obtain ⟨m', h1, h2⟩ := run_movD m off rid x hg
        refine ⟨m', _, _, h1, h2, by decide, ?_⟩
-       simp [tySize, lowBytes, widen, zext32, zext8, zext16] <;> bv_decide)
+       simp [tySize, lowBytes, widen, isInt, isBetween, zext32, zext8, zext16] <;> bv_decide)
 
 /-- 64-bit parameters (64-bit targets): `movsx` / `movzx` / `movsxd` into the 64-bit view and a qword store; a dword store plus a
     cleared upper half where zero extension is required; a plain qword store -/
@@ -518,25 +523,25 @@ theorem reg_stack_wide (avx : Bool) : ∀ dt ∈ [40, 41], ∀ st ∈ intTys8, R
     first
     | (obtain ⟨m', h1, h2⟩ := run_extQ m off .movsx (Or.inl rfl) 2 (Or.inl rfl) (by decide) rid x hg
        refine ⟨m', _, _, h1, h2, by decide, ?_⟩
-       simp [tySize, lowBytes, widen, extOf, rtBits, sext8]; bv_decide)
+       simp [tySize, lowBytes, widen, isInt, isBetween, extOf, rtBits, sext8]; bv_decide)
     | (obtain ⟨m', h1, h2⟩ := run_extQ m off .movzx (Or.inr (Or.inl rfl)) 2 (Or.inl rfl) (by decide) rid x hg
        refine ⟨m', _, _, h1, h2, by decide, ?_⟩
-       simp [tySize, lowBytes, widen, extOf, rtBits, zext8, sext8]; bv_decide)
+       simp [tySize, lowBytes, widen, isInt, isBetween, extOf, rtBits, zext8, sext8]; bv_decide)
     | (obtain ⟨m', h1, h2⟩ := run_extQ m off .movsx (Or.inl rfl) 4 (Or.inr (Or.inl rfl)) (by decide) rid x hg
        refine ⟨m', _, _, h1, h2, by decide, ?_⟩
-       simp [tySize, lowBytes, widen, extOf, rtBits, sext16]; bv_decide)
+       simp [tySize, lowBytes, widen, isInt, isBetween, extOf, rtBits, sext16]; bv_decide)
     | (obtain ⟨m', h1, h2⟩ := run_extQ m off .movzx (Or.inr (Or.inl rfl)) 4 (Or.inr (Or.inl rfl)) (by decide) rid x hg
        refine ⟨m', _, _, h1, h2, by decide, ?_⟩
-       simp [tySize, lowBytes, widen, extOf, rtBits, zext16, sext16]; bv_decide)
+       simp [tySize, lowBytes, widen, isInt, isBetween, extOf, rtBits, zext16, sext16]; bv_decide)
     | (obtain ⟨m', h1, h2⟩ := run_extQ m off .movsxd (Or.inr (Or.inr rfl)) 5 (Or.inr (Or.inr rfl)) (by decide) rid x hg
        refine ⟨m', _, _, h1, h2, by decide, ?_⟩
-       simp [tySize, lowBytes, widen, extOf, rtBits, sext32]; bv_decide)
+       simp [tySize, lowBytes, widen, isInt, isBetween, extOf, rtBits, sext32]; bv_decide)
     | (obtain ⟨m', h1, h2⟩ := run_zxDQ m off rid x hg
        refine ⟨m', _, _, h1, h2, by decide, ?_⟩
-       simp [tySize, lowBytes, widen, zext32, sext32])
+       simp [tySize, lowBytes, widen, isInt, isBetween, zext32, sext32])
     | (obtain ⟨m', h1, h2⟩ := run_movQ m off rid x hg
        refine ⟨m', _, _, h1, h2, by decide, ?_⟩
-       simp [tySize, lowBytes, widen])
+       simp [tySize, lowBytes, widen, isInt, isBetween])
 
 /-- **register to stack argument, every integer type pair a target admits, every register content, any machine state**: after the
     instructions `move_reg_to_stack_arg` emits the slot holds the register's value extended as the parameter type requires (sign
@@ -575,5 +580,21 @@ theorem vec_to_ptr_machine (m : M) (nrt pid : Nat) (off : Nat) (vrt vid k : Nat)
   have hgv : (m.setGp pid (.ptr off)).getV 1 vid = some k := by simpa [M.setGp, M.getV] using hg
   simp [run, step, addrOf, spId, hp, getGp_setGp, hvg, hgv, cell_store_same]
   simp [M.store, M.getGp, M.setGp]
+
+/-! ## open finding C06-K9 (known_findings.json): register-position integer arguments are passed as they are
+
+  `on_before_invoke` emits nothing for a GP register passed for an integer parameter in a register position, whatever the two
+  types; the allocator then places the virtual register in the argument register.  A narrower register therefore reaches the callee
+  with its upper bits undefined (8/16-bit registers) or zero-extended (32-bit registers, also for signed -> signed), while the same
+  argument in a stack position is extended by `move_reg_to_stack_arg` (`reg_stack_arg_machine`).  Witness on the model: an `int32`
+  register holding 0x88664422 for an `int64` parameter in rdx: no instruction, the callee reads 0x0000000088664422, the parameter
+  type requires 0xFFFFFFFF88664422.  (Host execution shows it on the real code: `ivx 32 2 1 40=r36 -> g7fff10d62211`.) -/
+theorem reg_arg_not_extended_witness :
+    let arg : FuncValue := .reg 40 6 2
+    let s0 : LSt := { is64 := true, avx := false, argStack := 0, csAlign := 16 }
+    (match lowerValue s0 arg (.gp 1 38) with
+     | .ok (s, op) => s.out == [] && op == .gp 1 38
+     | .error _ => false) = true ∧
+    widen 40 38 0x88664422#64 = 0xFFFFFFFF88664422#64 ∧ zext32 0x88664422#64 = 0x88664422#64 := by decide
 
 end AsmjitVerif.C06Invoke
